@@ -225,9 +225,14 @@ fn on_fields(fields: &Fields, has_self: bool, encoding: Encoding) -> syn::Result
         }
         Encoding::Array => {
             let mut steps = Vec::new();
+            // A nil value which is followed by a non-nil one is not left out
+            // of the array. It is encoded like any other value (including its
+            // tag), so its actual length needs to be accounted for. One byte
+            // of it is already part of the gap `#n - __num777` below.
             steps.push(quote! {
                 let mut __num777 = 0;
                 let mut __len777 = 0;
+                let mut __nil777 = 0;
             });
             for field in fields.fields() {
                 if field.attrs.skip() {
@@ -244,24 +249,33 @@ fn on_fields(fields: &Fields, has_self: bool, encoding: Encoding) -> syn::Result
                     if field.is_name {
                         steps.push(quote! {
                             if !#is_nil(&self.#ident) {
-                                __len777 += (#n - __num777) + #tag + #cbor_len(&self.#ident, __ctx777);
-                                __num777 = #n + 1
+                                __len777 += (#n - __num777) + __nil777 + #tag + #cbor_len(&self.#ident, __ctx777);
+                                __num777 = #n + 1;
+                                __nil777 = 0
+                            } else {
+                                __nil777 += #tag + #cbor_len(&self.#ident, __ctx777) - 1
                             }
                         })
                     } else {
                         let i = syn::Index::from(field.pos);
                         steps.push(quote! {
                             if !#is_nil(&self.#i) {
-                                __len777 += (#n - __num777) + #tag + #cbor_len(&self.#i, __ctx777);
-                                __num777 = #n + 1
+                                __len777 += (#n - __num777) + __nil777 + #tag + #cbor_len(&self.#i, __ctx777);
+                                __num777 = #n + 1;
+                                __nil777 = 0
+                            } else {
+                                __nil777 += #tag + #cbor_len(&self.#i, __ctx777) - 1
                             }
                         })
                     }
                 } else {
                     steps.push(quote! {
                         if !#is_nil(&#ident) {
-                            __len777 += (#n - __num777) + #tag + #cbor_len(&#ident, __ctx777);
-                            __num777 = #n + 1
+                            __len777 += (#n - __num777) + __nil777 + #tag + #cbor_len(&#ident, __ctx777);
+                            __num777 = #n + 1;
+                            __nil777 = 0
+                        } else {
+                            __nil777 += #tag + #cbor_len(&#ident, __ctx777) - 1
                         }
                     })
                 }
